@@ -4,10 +4,11 @@ file of /repo that imports "sync" or "sync/atomic" is replaced by a copy importi
 package under the same name; the shim is added as virtual package /repo/verifshim."""
 import sys, os, re, json
 out = sys.argv[1]
+REPO = os.environ.get("VERIF_REPO", "/repo").rstrip("/")
 os.makedirs(out, exist_ok=True)
 repl = {}
 n = 0
-for root, dirs, files in os.walk("/repo"):
+for root, dirs, files in os.walk(REPO):
     dirs[:] = [d for d in dirs if not d.startswith(".") and d not in ("testdata", "verifshim")]
     for f in files:
         if not f.endswith(".go") or f.endswith("_test.go"):
@@ -22,6 +23,6 @@ for root, dirs, files in os.walk("/repo"):
             n += 1
             open(q, "w").write(t)
             repl[p] = q
-repl["/repo/verifshim/shim.go"] = os.path.join(os.path.dirname(os.path.dirname(os.path.abspath(__file__))), "overlays/verifshim/shim.go")
+repl[REPO + "/verifshim/shim.go"] = os.path.join(os.path.dirname(os.path.dirname(os.path.abspath(__file__))), "overlays/verifshim/shim.go")
 json.dump({"Replace": repl}, open(os.path.join(out, "overlay.json"), "w"), indent=1)
 print(n, "files rewritten")
